@@ -175,6 +175,17 @@ def run_shard(ctx, K=None):
         res = run_case(ctx, gd, q, via=rng.choice(("outcomes", "identify", "single", "from_parts")), cards=cards)
         wide["estimands"] += res is not None
     ctx.extras["wide_graphs"] = wide
+    # the same with 64..130 nodes (sparse padding): thresholds on node counts far above the usual sizes
+    huge = 0
+    for _ in range(ctx.share({"quick": 64, "thorough": 1500}[ctx.tier])):
+        core = gg.random_admg(rng, rng.choice([3, 4, 4, 5]))
+        q = gq.random_query(rng, core)
+        if q is None:
+            continue
+        gd, pad = gg.embed_wide(core, rng, rng.choice([64, 65, 100, 130]), p_di=0.02, p_bi=0.01)
+        huge += 1
+        run_case(ctx, gd, q, via=rng.choice(("outcomes", "identify")), cards={w: 1 for w in pad})
+    ctx.extras["huge_graphs"] = huge
     # edit histories: the same graph object is queried, edited in place and queried again
     _edit_histories(ctx, rng)
     exs = example_graphs()
